@@ -41,6 +41,7 @@ seeded)
   for D in "$VERIF"/seeded/${1:-*}/; do
     [ -f "$D/patch.diff" ] || continue
     ID="$(basename "$D")"
+    if [ "$(python3 -c "import json; print(bool(json.load(open('$D/meta.json')).get('superseded')))")" = True ]; then echo "$ID: superseded by a later fix, skipped"; continue; fi
     PROP="$(python3 -c "import json; m=json.load(open('$D/meta.json')); print(m.get('property_check_for_selftest', m['property']))")"
     EXPECT="$(python3 -c "import json; m=json.load(open('$D/meta.json')); print(bool(m.get('caught_by')))")"
     M="$(mktemp -d /tmp/verif-seeded.XXXXXX)"
